@@ -67,7 +67,9 @@ def run_all(chk, prop_ids, progs, common_args, timeout=None, jobs=None):
     ok, failed = build_all(progs)
     for p in failed:
         chk.engine_error("program %s did not compile" % p.label)
-    cmds = [[p.exe, "--prop", prop_ids] + common_args + p.args for p in ok]
+    for p in ok:
+        p.full_args = ["--prop", prop_ids] + common_args + p.args
+    cmds = [[p.exe] + p.full_args for p in ok]
     t0 = time.time()
     results = vtlib.run_many(cmds, jobs=jobs, timeout=timeout)
     out = []
@@ -133,6 +135,8 @@ def aggregate(chk, results, prop, level="model_checking", crash_prop=None):
             rp["label"] = p.label
             rp["cfg"] = {k: v2 for k, v2 in p.cfg.items()}
             rp["build"] = {k: v2 for k, v2 in p.build_kw.items()}
+            rp["args"] = getattr(p, "full_args", [])
+            rp["name"] = p.name
             chk.violation(stable_assert_fingerprint(v["fingerprint"], v["message"]), "[%s] %s" % (p.label, v["message"]), rp)
         if crash is not None:
             chk.violation("crash/%s" % p.name, "[%s] explorer crashed or was stopped by a sanitizer: %s" % (p.label, crash[:1500]),
@@ -171,3 +175,36 @@ def curated(names=None, **kw):
             continue
         out.append(Prog(n, d, **kw))
     return out
+
+
+def replay(path):
+    """python3 vt.py <id> --replay <file>: rebuild the recorded program/configuration from the current tree and re-run exactly
+    the recorded history (twice, must be deterministic); prints the callback trace; exit 1 if the violation reproduces."""
+    import json as _json
+    import subprocess
+    rec = _json.load(open(path))
+    rp = rec["replay"]
+    if "dsl" not in rp or "enc" not in rp:
+        print("this replay file does not describe an engine history:", _json.dumps(rp)[:400])
+        return 2
+    cfg = rp.get("cfg", {})
+    bk = rp.get("build", {})
+    flags = bk.get("flags", [])
+    p = Prog(rp.get("name", rp.get("program", "replay")), rp["dsl"], features=cfg.get("features"), manual=cfg.get("manual", False),
+             bottom_up=cfg.get("bottom_up", False), payload=cfg.get("payload", "void"), sublimit=cfg.get("sublimit"),
+             taskcap=cfg.get("taskcap"), scripted_rng=cfg.get("scripted_rng", True), cxx=bk.get("cxx", "g++"), std=bk.get("std", "c++17"),
+             opt=bk.get("opt", "-O1"), san=bk.get("san", False), asserts="-DVT_ASSERT" in flags, flavour=bk.get("flavour", "single"),
+             extra_flags=[f for f in flags if f != "-DVT_ASSERT"])
+    ok, failed = build_all([p])
+    if failed:
+        print("program does not compile on this tree")
+        return 2
+    args = [a for a in rp.get("args", ["--prop", rec["property"]])]
+    # drop exploration-only options that take a value and are meaningless for a replay
+    out = subprocess.run([p.exe] + args + ["--replay", rp["enc"]], capture_output=True, text=True)
+    print("property   :", rec["property"], " fingerprint:", rec["fingerprint"])
+    print("recorded   :", rec["message"][:400])
+    print(out.stdout[-6000:])
+    reproduced = out.returncode == 1 and rec["fingerprint"].split("/")[0] in out.stdout + rec["fingerprint"]
+    print("REPRODUCED" if out.returncode == 1 else "not reproduced on this tree")
+    return 1 if out.returncode == 1 else 0
